@@ -678,12 +678,84 @@ def backoff_burst(**kw):
 
 
 
+def snapshot_members(**kw):
+    """a leader compacts while it holds an unapplied (and never committed) membership entry; the snapshot it ships
+    must carry the member set of the snapshot's position, not the capturer's current one"""
+    sc = Script(base_cfg([1, 2, 3], dyn=True, fallback=100000, chunk=65536), **kw)
+    s = sc.s
+    s.boot()
+    sc.isolate(3)                     # 3 lags from the start: it will need the snapshot
+    sc.elect(1, [2])
+    sc.settle([1, 2], 2)
+    s.submit(1, size=5)
+    sc.settle([1, 2], 3)              # index 3 applied on 1 and 2
+    s.drop(1, 2)
+    s.drop(2, 1)
+    sc.rec.do(('admin', 1, True, 4, 901))
+    s.tick(1, 11)                     # 'add 4' appended at index 4 on node 1 only; it will never commit
+    sc.rec.do(('compact', 1))
+    s.tick(1, 11)
+    s.tick(1, 11)
+    s.connect(1, 3)
+    s.connect(3, 1)
+    s.tick(1, 11)                     # snapshot (position 3) goes to 3, followed by append_entries with 'add 4'
+    sc.rec.do(('lose', 1, 3, 1))      # the append_entries behind the snapshot is lost
+    sc.flush(1, 3)                    # 3 installs the snapshot
+    sc.flush(3, 1)
+    s.drop(1, 3)
+    s.drop(3, 1)
+    s.connect(2, 3)
+    s.connect(3, 2)
+    sc.elect_until(2, [3])            # term 2: the no-op of 2 takes index 4
+    sc.settle([2, 3], 3)
+    sc.join(1)
+    sc.settle([1, 2, 3], 5)           # 1 cuts 'add 4' (callback: DISCARDED); no log holds a membership command
+    return sc.rec
+
+
+def old_snapshot_again(**kw):
+    """two rejections of a lagging follower are handled by the leader in different ticks: after the first it ships its
+    snapshot and the entries behind it, after the second it ships the same snapshot again - to a follower that has
+    meanwhile applied later entries.  A snapshot behind the applied position must not be installed."""
+    sc = Script(base_cfg([1, 2, 3], chunk=65536, fallback=100000), **kw)
+    s = sc.s
+    s.boot()
+    sc.elect(1)
+    sc.settle([1, 2, 3], 2)
+    sc.isolate(3)
+    for _ in range(3):
+        s.submit(1, size=5)
+    sc.settle([1, 2], 3)
+    sc.rec.do(('compact', 1))
+    sc.rec.do(('compact', 2))
+    sc.settle([1, 2], 2)
+    for _ in range(3):
+        s.submit(1, size=5)
+    sc.settle([1, 2], 3)              # entries behind the snapshot, committed by 1 and 2
+    sc.elect_until(2, [1])            # a new leader: its next index for 3 is its log end + 1
+    sc.settle([1, 2], 2)
+    sc.join(3)
+    s.tick(2, 11)
+    s.tick(2, 11)                     # two append_entries queue up for 3 ...
+    sc.flush(2, 3)                    # ... and draw two rejections
+    s.deliver(3, 2)                   # the first one: next index of 3 goes back, 2 will ship its snapshot
+    s.tick(2, 11)
+    sc.flush(2, 3)                    # 3 installs the snapshot and stores the entries behind it
+    s.tick(3, 11)                     # ... and applies them
+    s.deliver(3, 2)                   # the second rejection, as old as the first
+    s.tick(2, 11)                     # the same snapshot goes out again
+    sc.flush(2, 3)
+    s.tick(3, 11)
+    sc.settle([1, 2, 3], 4)
+    return sc.rec
+
+
 SCENARIOS = {'d7': d7, 'd8': d8, 'd17': d17, 'd16': d16, 'd1': d1, 'd20': d20,
              'snapshot_catchup': snapshot_catchup, 'forwarded': forwarded,
              'restart_double_vote': restart_double_vote, 'd18': d18, 'd10': d10, 'd19': d19, 'd6': d6,
              'ser_fork': ser_fork, 'ser_custom': ser_custom, 'fig8': fig8, 'stale_match_reelected': stale_match_reelected,
              'stale_cursor': stale_cursor, 'compact_during_install': compact_during_install,
-             'member_rollback': member_rollback, 'backoff_burst': backoff_burst}
+             'member_rollback': member_rollback, 'backoff_burst': backoff_burst, 'snapshot_members': snapshot_members, 'old_snapshot_again': old_snapshot_again}
 NAMES = sorted(SCENARIOS)
 
 
